@@ -967,6 +967,11 @@ class SigmaCIDRExpression(NoPlainConversionMixin, SigmaType):
                     patterns.append(
                         str(subnet_v6)[:i] + wildcard
                     )  # Generate pattern by cutting of at first difference
+                elif subnet_v6.prefixlen < 128:
+                    # No difference within the length of the first address: its zero-compressed
+                    # text is a prefix of the last address (e.g. "fe80::" and
+                    # "fe80::ffff:ffff:ffff:ffff"), the wildcard belongs behind it.
+                    patterns.append(first_addr + wildcard)
                 else:  # The /128 case - single address, use network_address not network (avoid "::1/128" literal)
                     patterns.append(str(subnet_v6.network_address))
         return patterns
